@@ -207,7 +207,11 @@ func c16Check(c *core.Ctx, inputs []any) {
 			return
 		}
 		got, err := c15Apply(res, layer)
-		if err != nil || !core.Equal(got, []any{in}) {
+		wantIn := []any{in}
+		if outs, eerr := evalTree(in); eerr == nil {
+			wantIn = outs // what the input evaluates to (escaped dollars come out unescaped)
+		}
+		if err != nil || !core.Equal(got, wantIn) {
 			c.Outcome("MIGRATE-LOSSY")
 			c.Fail("migrate-lossless", "input-not-reproduced", wit, map[string]any{"base": res, "input": in, "layer": layer, "got": got, "error": errStr(err)})
 			return
@@ -253,6 +257,13 @@ func buildC16(tier string) *core.Plan {
 		Run: func(c *core.Ctx, i int64) {
 			c16Check(c, []any{map[string]any{"l": lists[i/nl], "k": 1}, map[string]any{"l": lists[i%nl], "k": 1}})
 		}})
+	// scalars of other kinds, values that print alike, escaped dollars: "equal" means the same value
+	ka := gen.Alphabet{Scalars: []any{1, "1", true, "true", "", 1.5, -2, "$$x", "$$required"}, Keys: []string{"a", "b c", "$$k"}, MaxList: 2, MaxMap: 2}
+	kt := gen.Filter(gen.Trees(ka, 3), gen.IsMap)
+	nkt := int64(len(kt))
+	spaces = append(spaces, core.Space{Name: "pairs-other-scalar-kinds", N: nkt * nkt,
+		Desc: func(i int64) any { return []any{kt[i/nkt], kt[i%nkt]} },
+		Run:  func(c *core.Ctx, i int64) { c16Check(c, []any{kt[i/nkt], kt[i%nkt]}) }})
 	if tier == "thorough" {
 		tiny := c15Trees(2)
 		n4 := int64(len(tiny))
@@ -608,6 +619,13 @@ func buildC17(tier string) *core.Plan {
 				c17Check(c, []any{mixed[i/nu], uppers[i%nu]})
 			}
 		}}
+	// strings that merely resemble the marker: an escaped "$$required" is data, and so is "$requiredX"
+	la := gen.Alphabet{Scalars: []any{"$required", "$$required", "$$", "$$requiredX", " $required"}, Keys: []string{"a", "$$required"}, MaxList: 2, MaxMap: 2}
+	laTrees := gen.Filter(gen.Trees(la, 4), gen.IsMap)
+	nla := int64(len(laTrees))
+	lookalike := core.Space{Name: "marker-lookalikes", N: nla,
+		Desc: func(i int64) any { return []any{laTrees[i]} },
+		Run:  func(c *core.Ctx, i int64) { c17Check(c, []any{laTrees[i]}) }}
 	cliTrees := gen.Filter(gen.Trees(a, 3), gen.IsMap)
 	nc := int64(len(cliTrees))
 	cli := core.Space{Name: "cli", N: nc * nc,
@@ -680,7 +698,7 @@ func buildC17(tier string) *core.Plan {
 			c.Outcome("cli-ok")
 		}}
 	return &core.Plan{
-		Spaces: []core.Space{single, two, three, mixedSpace, cli},
+		Spaces: []core.Space{single, two, three, mixedSpace, cli, lookalike},
 		Rule:   "every chain of 1-3 map-rooted layers over keys {a,b}, scalars {1, x, $required}, lists <=3 (single layers up to N nodes, pairs up to N-1, triples up to 3): $required at every subset of positions, upper layers overriding every subset; CLI runs with filename inheritance in format mixes; non-trivial = the merged document holds a marker",
 		Assumptions: []string{"marker positions are compared as multisets of paths with list indices erased; in-process runs use cmd/bklr/required.go copied from /repo's working tree at build time"},
 		Bounds:      map[string]any{"nodes": n},
